@@ -727,7 +727,7 @@ def main():
     distinct = set()
     hist = {"monitor": 0, "monitor_two_files": 0, "monitor_clock_gap": {}, "monitor_no_early_resets": 0, "vecmon": 0, "eval": 0, "eval_mode": {"0": 0, "1": 0, "2": 0, "3": 0, "4": 0, "5": 0}, "eval_raw_env": 0, "monitor_append": 0, "monitor_dir_filename": 0, "vecmon_inner_monitor": 0, "off_grid_rewards": 0,
             "eval_n_lt_envs": 0, "n_envs": {}, "info_keywords": {}}
-    reported = set()
+    reported, queue = set(), []
     for c, im, probs in zip(cases, impls, results):
         hist[c["kind"]] += 1
         hist["off_grid_rewards"] += int(c.get("reward_scale") is not None)
@@ -758,12 +758,18 @@ def main():
             if sig in reported:
                 continue
             reported.add(sig)
-            chk.violation(sig, "; ".join(m for _, m in (oracle_bad or probs)[:3]),
+            queue.append((sig, "; ".join(m for _, m in (oracle_bad or probs)[:3]),
                           {"case": c, "problems": probs[:10], "traceback": im.get("traceback"),
                            "correspondence": "harness/c18.py vs Model.Monitor.mon_env_run / vm_scripted_run / Model.Evaluate.evaluate_scripted"},
-                          found_input=bool(oracle_bad))
-            if len(reported) >= 3:
-                break
+                          bool(oracle_bad)))
+    # statement-level oracle failures (concrete failing inputs) are reported first; model-only disagreements go into the remaining slots
+    emitted = 0
+    for q_sig, q_msg, q_replay, q_found in sorted(queue, key=lambda q: not q[3]):
+        if q_sig not in {APPEND_SIG}:
+            if emitted >= 3:
+                continue
+            emitted += 1
+        chk.violation(q_sig, q_msg, q_replay, found_input=q_found)
     chk.coverage["evaluations"] = len(cases)
     chk.coverage["traces_validated_against_impl"] = len(cases)
     chk.coverage["distinct_nontrivial"] = len(distinct)
